@@ -78,6 +78,8 @@ def r9_1(ctx):
     m = prog.fn("max_backtick_size")
     o = Origins(m)
     r = o.local(0)
+    if _max_backtick_iterator_form(ctx, prog, m, r):
+        return
     inits = [k for k in (r.kids if r.kind == "phi" else [r]) if peel(k).kind == "const"]
     init = peel(inits[0]).a.as_int() if inits else None
     ctx.check(init is not None and init >= 2, "max:init", m.where(), "max_backtick_size starts at %s (so the fence has at least 3 backticks)" % init,
@@ -97,6 +99,62 @@ def r9_1(ctx):
             if t.kind == "bin" and t.a in ("Ne", "Eq") and any(k.kind == "const" and k.a.as_char() == "`" for k in t.kids):
                 cmp_ok = True
     ctx.check(cmp_ok, "max:counts-backticks", m.where(), "the per-line count is the leading run of '`'")
+
+
+def _closure_of(prog, body, node):
+    n = peel(node)
+    if n.kind == "agg" and isinstance(n.a, tuple) and n.a[0].startswith("closure "):
+        return prog.body_by_def(n.a[0][len("closure "):], body.crate)
+    return None
+
+
+def _max_backtick_iterator_form(ctx, prog, m, r):
+    """`lines().map(|l| l.chars().take_while(|c| *c == '`').count())` folded with max from a constant >= 2
+    (`.fold(c, |a, b| b.max(a))`, or `.max().unwrap_or(_).max(c)`). Returns False if the function has another form."""
+    n = peel(r)
+    lower = None
+    if n.kind == "call" and method_name(n.a) in ("Ord::max", "cmp::max") and len(n.kids) == 2:
+        cs = [k for k in n.kids if peel(k).kind == "const"]
+        rest = [k for k in n.kids if peel(k).kind != "const"]
+        if len(cs) == 1 and len(rest) == 1:
+            lower = peel(cs[0]).a.as_int()
+            n = peel(rest[0])
+    if n.kind == "call" and method_name(n.a) in ("Option::unwrap_or", "Option::unwrap_or_default") and n.kids:
+        n = peel(n.kids[0])
+    acc = None
+    if n.kind == "call" and method_name(n.a) == "Iterator::max" and n.kids:
+        acc, n = "max", peel(n.kids[0])
+    elif n.kind == "call" and method_name(n.a) == "Iterator::fold" and len(n.kids) == 3:
+        init = peel(n.kids[1])
+        fc = _closure_of(prog, m, n.kids[2])
+        fr = peel(Origins(fc).local(0)) if fc is not None else None
+        if init.kind == "const" and fr is not None and fr.kind == "call" and method_name(fr.a) in ("Ord::max", "cmp::max") and \
+                sorted(peel(k).a for k in fr.kids if peel(k).kind == "arg") == [2, 3]:
+            acc = "fold-max"
+            lower = max(lower or 0, init.a.as_int())
+        n = peel(n.kids[0])
+    if acc is None or not (n.kind == "call" and method_name(n.a) == "Iterator::map" and len(n.kids) == 2):
+        return False
+    src = peel(n.kids[0])
+    cc = _closure_of(prog, m, n.kids[1])
+    if cc is None:
+        return False
+    ctx.check(lower is not None and lower >= 2, "max:init", m.where(), "max_backtick_size is at least %s (so the fence has at least 3 backticks)" % lower,
+              "max_backtick_size has lower bound %s" % lower)
+    ctx.ok("max:accumulates", m.where(), "the per-line counts are combined with max (%s)" % acc)
+    ctx.check(src.kind == "call" and method_name(src.a) == "str::lines" and any(k.kind == "arg" and k.a == 1 for k in src.walk()), "max:all-lines", m.where(),
+              "every line of the argument is measured", "the measured lines are %s" % src.show()[:80])
+    cr = peel(Origins(cc).local(0))
+    ok = cr.kind == "call" and method_name(cr.a) == "Iterator::count" and cr.kids
+    tw = peel(cr.kids[0]) if ok else None
+    ok = ok and tw.kind == "call" and method_name(tw.a) in ("Iterator::take_while", "Iterator::filter") and \
+        peel(tw.kids[0]).kind == "call" and method_name(peel(tw.kids[0]).a) == "str::chars"
+    if ok:
+        pc = _closure_of(prog, cc, tw.kids[1])
+        pr = peel(Origins(pc).local(0)) if pc is not None else None
+        ok = pr is not None and pr.kind == "bin" and pr.a == "Eq" and any(k.kind == "const" and k.a.as_char() == "`" for k in pr.kids)
+    ctx.check(bool(ok), "max:counts-backticks", cc.where(), "the per-line count covers the leading run of '`'", "the per-line count is %s" % cr.show()[:100])
+    return True
 
 
 def r9_2(ctx):
